@@ -304,4 +304,4 @@ def _obligations():
 
 
 def obligations():
-    return _obligations() + [constructors_obligation(['cryomotl.Motl', 'cryomotl.EmMotl']), labels_obligation("C01"), selectors_obligation("C01"), mutations_obligation("C01"), effects_obligation("C01"), plumbing_obligation("C01"), overrides_obligation("C01"), options_obligation("C01"), handlers_obligation("C01")]
+    return _obligations() + [constructors_obligation(['cryomotl.Motl', 'cryomotl.EmMotl']), labels_obligation("C01"), selectors_obligation("C01"), mutations_obligation("C01"), loopstate_obligation("C01"), effects_obligation("C01"), plumbing_obligation("C01"), overrides_obligation("C01"), options_obligation("C01"), handlers_obligation("C01")]
